@@ -49,6 +49,7 @@ func must(err error) {
 
 func newEnv(seed uint64, n int, out *bufio.Writer, opt hist.Options) *env {
 	r := rng.New(seed*1000003 + uint64(n))
+	r = rng.New(r.U64() ^ (uint64(n)+1)*0xD1342543DE82EF95) // consecutive seeds of splitmix64 give shifted copies of one stream
 	g := gate.New()
 	h, err := hist.New(r, out, n, opt, g.Wrap)
 	must(err)
@@ -270,9 +271,25 @@ func runOne(seed uint64, n int, out *bufio.Writer, tier string) (err error) {
 	xAddrs := append([]*hist.AddrInfo{}, x.Addrs...)
 	modes := []string{"none", "block", "reorg", "reorg", "reorg", "restart", "restart-reorg"}
 	mode := modes[r.Intn(len(modes))]
+	abl := map[int]string{}
+	tipBefore := *h.N.Tip().Hash()
+	for _, wi := range h.Wallets {
+		if wi != x {
+			abl[wi.Num] = h.BuildSign(wi)
+		}
+	}
 	if !e.remove(x, mode) {
 		h.End()
 		return nil
+	}
+	for _, wi := range h.Wallets {
+		// (a chain movement during the removal legitimately changes what can be spent)
+		if wi != x && abl[wi.Num] == "ok" && tipBefore == *h.N.Tip().Hash() {
+			e.stats["buildsign_ok_before"]++
+			if after := h.BuildSign(wi); after != "ok" && after != "nofunds" {
+				h.IEmit("V survivor-cannot-build-or-sign wallet %d after removing wallet %d: %s", wi.Num, x.Num, after)
+			}
+		}
 	}
 	h.Listing()
 	h.Use(x)
@@ -297,6 +314,13 @@ func runOne(seed uint64, n int, out *bufio.Writer, tier string) (err error) {
 			d.G.Disarm()
 			h.IEmit("V reimport-refused wallet %d: %v", x.Num, strings.ReplaceAll(err.Error(), " ", "_"))
 		} else {
+			if os.Getenv("VERIF_DUMP") != "" {
+				for _, a := range xAddrs {
+					u, err := h.W.WM.VerifChainFetcher().CheckScriptHashUsed(a.ShBytes)
+					fmt.Fprintf(os.Stderr, "DUMP sh %d used=%v err=%v staking=%q\n", a.Sh, u, err, a.Staking)
+				}
+				fmt.Fprintf(os.Stderr, "DUMP discovered %d of %d\n", len(wi.Addrs), len(xAddrs))
+			}
 			st, ok := d.RunImport(wi, nil, stepTimeout)
 			if !ok {
 				h.IEmit("C import-ended %s", st)
@@ -459,8 +483,13 @@ func directed(k int, out *bufio.Writer) {
 		d.G.Arm()
 		must(h.W.WM.RemoveWallet(B.ID, B.Pass))
 		h.IEmit("R req %d %d ok", B.Num, d.Pass(B.Pass))
+		restarted := false
 		st, ok := d.RunRemove(B, func(kind string, step int, status string) string {
 			if kind == "remove" {
+				if restarted {
+					return ""
+				}
+				restarted = true
 				return "restart"
 			}
 			_, err := h.Detach()
@@ -470,6 +499,14 @@ func directed(k int, out *bufio.Writer) {
 			return ""
 		}, func() (*gate.Gate, string) { return d.Reopen("") }, stepTimeout)
 		h.IEmit("C removal-ended %s %v", st, ok)
+		if ok {
+			d.Settle()
+			h.Listing()
+			addrs := append([]*hist.AddrInfo{}, B.Addrs...)
+			h.RetireWallet(B)
+			h.Query()
+			e.rawScan(B, addrs)
+		}
 	case 5:
 		// C08_residue_under_reorg_refuted: T pays a staking deposit to B; reorg of T's block between the steps
 		t := hist.PayTx(e.pick(a1.Sh), []sim.Out{{Script: h.ScriptStaking(b1, 3), Value: 1}})
@@ -655,9 +692,9 @@ func main() {
 	dir := flag.Bool("directed", false, "run the directed scenarios")
 	scen := flag.Int("scenario", 0, "internal: run one directed scenario")
 	flag.Parse()
-	os.Setenv("VERIF_LOG", envOr("VERIF_LOG", "info")) // asyncRemove logs after resume: widens the window for the handler
 	if *scen > 0 {
 		sim.Init(sim.Params{CoinbaseMaturity: 4, MinFrozenPeriod: 2, GapLimit: 20})
+		defer os.RemoveAll(hist.QuietLogs(envOr("VERIF_LOG", "info")))
 		w := bufio.NewWriter(os.Stdout)
 		directed(*scen, w)
 		w.Flush()
@@ -665,6 +702,7 @@ func main() {
 	}
 	if *worker {
 		sim.Init(sim.Params{CoinbaseMaturity: 4, MinFrozenPeriod: 2, GapLimit: 20})
+		defer os.RemoveAll(hist.QuietLogs(envOr("VERIF_LOG", "info")))
 		seed := rng.Seed()
 		w := bufio.NewWriter(os.Stdout)
 		for i := 0; i < *count; i++ {
@@ -705,7 +743,7 @@ func main() {
 				defer wg.Done()
 				sem <- struct{}{}
 				defer func() { <-sem }()
-				cmd := exec.Command(self, "-scenario", strconv.Itoa(k))
+				cmd := exec.Command("timeout", "120", self, "-scenario", strconv.Itoa(k))
 				var so, se bytes.Buffer
 				cmd.Stdout, cmd.Stderr = &so, &se
 				err := cmd.Run()
